@@ -181,6 +181,9 @@ fn classify(e: &anyhow::Error) -> OpResult {
             FeigError::NoCardPresented => ErrKind::NoCardPresented,
             FeigError::NeedsPinEntry => ErrKind::NeedsPinEntry,
             FeigError::UnexpectedPacket => ErrKind::UnexpectedPacket,
+            // a variant this harness does not know (added by a later change of the crate)
+            #[allow(unreachable_patterns)]
+            _ => ErrKind::Other,
         }
     } else if let Some(z) = e.downcast_ref::<zvt::ZVTError>() {
         match z {
@@ -473,6 +476,8 @@ pub fn execute(plan: &ClientPlan) -> ClientRun {
                         OpSpec::ReadCard { .. } => feig.read_card().await.map(|c| match c {
                             CardInfo::Bank => OkVal::Bank,
                             CardInfo::MembershipCard(m) => OkVal::Membership(m),
+                            #[allow(unreachable_patterns)]
+                            _ => OkVal::Unit,
                         }),
                         OpSpec::Configure { .. } => feig.configure().await.map(|_| OkVal::Unit),
                     }
